@@ -663,7 +663,11 @@ class TupimageTerminal:
                 )
             return image, datetime.datetime.fromtimestamp(0)
         else:
-            md5sum = hashlib.md5(image.tobytes()).hexdigest()
+            # Images with the same raw bytes but a different shape or mode are
+            # different images.
+            md5 = hashlib.md5(f"{image.mode}:{image.size[0]}x{image.size[1]}:".encode())
+            md5.update(image.tobytes())
+            md5sum = md5.hexdigest()
             return f":tupimage:{md5sum}", datetime.datetime.fromtimestamp(0)
 
     def get_id_space(
